@@ -25,7 +25,7 @@ type WGlyph struct {
 	SBX, SBY   int64 // numerators
 	WX, WY     int64 // numerators
 	UseSBW     bool
-	Cmds       []WCmd // absolute coordinates (numerators)
+	Cmds       []WCmd     // absolute coordinates (numerators)
 	HStem      [][2]int64 // (low edge, high edge), integers, absolute
 	VStem      [][2]int64
 	Stem3H     bool // write the three HStem entries with hstem3
@@ -78,16 +78,18 @@ type WLayout struct {
 	OtherSubr bool // Adobe-style OtherSubrs code in Private
 	Flex      bool // the font uses flex (reserves Subrs 0-3)
 	HintRepl  bool
-	Factor    int // amount of subroutine factoring 0..3
-	FiveByte  int // percent of integers written in the 5-byte form
-	General   int // percent of segments written with the general command although a special one fits
+	Factor    int      // amount of subroutine factoring 0..3
+	FiveByte  int      // percent of integers written in the 5-byte form
+	General   int      // percent of segments written with the general command although a special one fits
 	Subrs     [][]byte // plain subroutines (filled while encoding)
 	Desc      string
 	// hostile-input switches (C01): literal text of the lenIV entry, raw
 	// subroutines used as they are, charstrings cut shorter than lenIV
 	LenIVText string
 	RawSubrs  [][]byte
-	CutShort  bool
+	// SparseSubrs: the Subrs array starts with unused (null) slots
+	SparseSubrs bool
+	CutShort    bool
 }
 
 // ---------------------------------------------------------------- charstring encoding
@@ -98,10 +100,10 @@ type csGroup struct {
 }
 
 type csEnc struct {
-	rng    *rand.Rand
-	lay    *WLayout
-	groups []csGroup
-	cur    []byte
+	rng     *rand.Rand
+	lay     *WLayout
+	groups  []csGroup
+	cur     []byte
 	depthOf map[int]int // subr index -> call depth it needs
 }
 
@@ -171,6 +173,9 @@ func (e *csEnc) op(name string) {
 }
 
 func (e *csEnc) addSubr(body []byte, depth int) int {
+	if body == nil {
+		body = []byte{} // nil marks an unused slot
+	}
 	e.lay.Subrs = append(e.lay.Subrs, body)
 	idx := len(e.lay.Subrs) - 1
 	e.depthOf[idx] = depth
@@ -463,6 +468,11 @@ func RenderType1(rng *rand.Rand, f *WFont, lay *WLayout) []byte {
 		if rng.IntN(2) == 0 {
 			lay.Subrs = StandardFlexSubrs()[:4]
 		}
+	} else if rng.IntN(3) == 0 {
+		// the customary slots are reserved but left empty (null entries in
+		// the array): general subroutines start behind the gap
+		lay.Subrs = make([][]byte, 1+rng.IntN(4))
+		lay.SparseSubrs = true
 	}
 	// encode glyphs first (fills lay.Subrs)
 	names := make([]string, 0, len(f.Glyphs))
@@ -568,6 +578,9 @@ func RenderType1(rng *rand.Rand, f *WFont, lay *WLayout) []byte {
 	if len(lay.Subrs) > 0 || rng.IntN(2) == 0 {
 		fmt.Fprintf(&priv, "/Subrs %d array\n", len(lay.Subrs))
 		for i, s := range lay.Subrs {
+			if s == nil {
+				continue // an unused slot: stays null
+			}
 			o := obf(s)
 			fmt.Fprintf(&priv, "dup %d %d %s ", i, len(o), rd)
 			priv.Write(o)
